@@ -62,7 +62,8 @@ def ext_assignments(labels, rng, count, cap, lists):
 
 
 def witnesses(tier, seed):
-    rng = random.Random(seed * 1039 + 15)
+    rng = random.Random(seed * 1039 + 15)      # extents
+    rng_top = random.Random(15)                # the sample of topologies is fixed: known-findings are keyed by topology
     quick = tier == 'quick'
     T3 = ['f64', 'f32', 'i32']
     W = []
@@ -78,8 +79,8 @@ def witnesses(tier, seed):
         for ranks in ((2, 2, 2, 3), (3, 2, 2, 2), (2, 3, 2, 2), (1, 3, 3, 1)):
             tops4 += topologies(ranks)
     if quick:
-        tops3 = rng.sample(tops3, min(len(tops3), 110))
-        tops4 = rng.sample(tops4, min(len(tops4), 36))
+        tops3 = rng_top.sample(tops3, min(len(tops3), 110))
+        tops4 = rng_top.sample(tops4, min(len(tops4), 36))
     for lists in tops3 + tops4:
         labels = sorted(set(l for L in lists for l in L))
         for ext in ext_assignments(labels, rng, 2 if quick else 5, 64, lists):
